@@ -367,6 +367,16 @@ def decide(ctx, failures, findings, guard_of=None):
     return new
 
 
+def uniq(xs, key=None):
+    """order-preserving de-duplication (distinct_nontrivial counts DISTINCT cases)"""
+    seen, out = set(), []
+    for x in xs:
+        k = key(x) if key else x
+        if k not in seen:
+            seen.add(k); out.append(x)
+    return out
+
+
 def load_corpus(pid):
     """Committed minimised past disagreements / finding witnesses; run first."""
     d = os.path.join(ROOT, "corpus", pid)
